@@ -15,6 +15,7 @@ Volt4 == <<208, 240, 120, 240>>
 Phase4 == <<30, -90, 150, 30>>
 Volt6 == <<208, 240, 120, 240, 120, 208>>
 Phase6 == <<30, -90, 150, 30, -90, 150>>
+Phase6U == <<-90, -90, -90, -90, -90, -90>>     \* a single-phase site on line BC: every station at the same, non-zero angle
 
 \* ---- constraint sets (coefficients over CoefDen = 4), in network order; deliberately not sorted ---
 \*   phA/phB/phC: line currents (collinear unit rows partitioning the stations)
